@@ -64,6 +64,10 @@ def c06(run: Run):
                     run.add("xz in=%s" % mu.hex(), oracle=must_reject, tag="c06:field:" + name.split("_", 1)[-1], field=name)
                 continue
             elif name.endswith(("pad", "hpad")):
+                if ln >= 2:
+                    # every padding byte the same non-zero value / two equal bytes (sums and XORs cancel)
+                    for fill in (b"\x41" * ln, b"\x5a\x5a" + b"\x00" * (ln - 2), b"\x80" * ln, b"\xff" * ln):
+                        muts.append(data[:off] + fill + data[off + ln:])
                 for j in range(ln):
                     muts.append(data[:off + j] + b"\x01" + data[off + j + 1:])
                     # … also when the reader hands the padding over in pieces (a seam right after the bad byte,
@@ -295,6 +299,17 @@ def c07(run: Run):
         run.add("rawlzma lc=%d lp=%d pb=%d dict=%d us=none ml=none ops=d:%s;d:%s" % (m["lc"], m["lp"], m["pb"], m["dict"], m["payload"].hex(), m["payload"].hex()),
                 oracle=lambda res, meta, peak: "panic/hang in raw decoder: " + res[:80] if ("panic" in res or v(res) in ("hang", "abort", "missing")) else None,
                 tag="c07:raw-twice", release=True)
+    # size fields at their maximum (65536-byte compressed chunk, 2 MiB chunk), also cut right after the chunk header
+    for b in core.gen_material("lzma2big", 1, 2):
+        run.add("lzma2 in=%s" % b["payload"].hex(), oracle=bound(len(b["payload"])), tag="c07:max-chunk", release=True, cmp=len(b["out"]) < 200000)
+        run.add("lzma2 in=%s" % b["payload"][:rng.pick([5, 6, 12])].hex(), oracle=bound(12), tag="c07:max-chunk-truncated", release=True)
+    # an index that lists more (or fewer) records than the stream has blocks
+    for f in [x for x in xzs if x["blocks"]][:sizes(run.tier, 6, 30)]:
+        recs = f["rec"]["_records"]
+        for vr in (recs + recs[-1:], recs + recs + recs, recs[:-1], []):
+            for cnt in (None, len(vr) + 1, 2**20):
+                d = core.build_xz(f["check"], f["blocks"], index_records=vr, index_count=cnt)
+                run.add("xz in=%s" % d.hex(), oracle=bound(len(d)), tag="c07:index-count", release=True)
     # very many complete units back to back: neither stack depth nor memory may grow with their number
     unit = core.build_xz(1, [])
     for cnt in (2, 60000):
@@ -375,6 +390,21 @@ def c08(run: Run):
                             tag="c08:size%s" % ("<len" if n < L else ">len"))
                     if n > L and eos:
                         run.add("lzma us=%s in=%s" % (us, data.hex()), oracle=exp_err(), tag="c08:marker-before-size")
+        # success means the sink really received that many bytes, also when it takes them piecewise
+        if rng.chance(1, 3):
+            us, data = rng.pick([("hdr", lzma_header(m["lc"], m["lp"], m["pb"], m["dict"], L) + pay), ("up:%d" % L, hdr5 + pay)])
+            run.add("lzma us=%s sink=%s in=%s" % (us, ",".join(rng.pick(["u1", "u2", "u5"]) for _ in range(30)), data.hex()),
+                    oracle=exp_ok_out(m["out"]), tag="c08:size=len:short-writing-sink")
+        # raw decoder: reset(None) keeps the size in effect
+        if m["dict"] >= 1 and L > 1 and rng.chance(1, 3):
+            def kept(res, meta, peak, n=L - 1):
+                toks = res.split(" ")
+                last = toks[-1] if toks else ""
+                if last.startswith("ok:") and repr_len(last.split(":", 2)[2]) != n:
+                    return "raw decoder: success with %d bytes although size %d is in effect after reset(None)" % (repr_len(last.split(":", 2)[2]), n)
+                return "panic" if "panic" in res else None
+            run.add("rawlzma lc=%d lp=%d pb=%d dict=%d us=%d ml=none ops=r;d:%s" % (m["lc"], m["lp"], m["pb"], m["dict"], L - 1, pay.hex()),
+                    oracle=kept, tag="c08:raw-size-kept-by-reset")
         # streaming finish obeys the same rule
         run.add("stream us=hdr ops=%s" % stream_ops(lzma_header(m["lc"], m["lp"], m["pb"], m["dict"], L + 1) + pay, [len(pay) + 13]),
                 oracle=lambda res, meta, peak, L=L: "stream finish succeeded with %d bytes, size %d in effect" % (repr_len(outfield(res)), L + 1)
@@ -386,6 +416,12 @@ def c08(run: Run):
                         ("hup:none rk=%s" % rng.pick(["buf:1", "buf:5", "cut:7", "frag:3:3"]), lzma_header(m["lc"], m["lp"], m["pb"], m["dict"], max(0, L - 1)) + pay),
                         ("up:none", hdr5 + pay)]
         for us, data in nosize_forms:
+            if eos and " rk=" not in us:
+                # … also for the streaming decoder when the bytes after the marker arrive in a later write
+                junk = rng.bytes(rng.pick([1, 2, 7, 19, 20, 30]))
+                run.add("stream us=%s ops=wa:%s;wa:%s;fin" % (us, data.hex(), junk.hex()),
+                        oracle=lambda res, meta, peak: "bytes written after the end marker were accepted by the streaming decoder" if stream_verdict(res) == "ok" else
+                        ("panic" if stream_verdict(res) not in ("ok", "err") else None), tag="c08:stream-bytes-after-marker")
             if eos:
                 run.add("lzma us=%s in=%s" % (us, data.hex()), oracle=exp_ok_out(m["out"]), tag="c08:nosize-marker")
                 tail = rng.pick([b"\x00", b"\x01", rng.bytes(5)])
@@ -451,6 +487,15 @@ def c09(run: Run):
             run.add("stream us=hdr ops=%s" % stream_ops(data, [len(data)]),
                     oracle=lambda res, meta, peak, out=m["out"]: None if stream_verdict(res) == "err" and is_prefix_repr(outfield(res), out)
                     else "out-of-window copy accepted by the streaming decoder or bytes fabricated", tag="c09:stream-api")
+            # … also in pieces, followed by more input, and when an incomplete stream may be finished
+            # (with allow_incomplete at least 10 more bytes follow: a stream that simply ends at the bad symbol is an
+            # incomplete one — the symbol's last normalisation byte may be missing — while fewer than 20 bytes keep
+            # the decoder on its dry-run path)
+            ai = rng.below(2)
+            more = data + rng.bytes(rng.pick([10, 12, 15, 25]) if ai else rng.pick([0, 3, 25]))
+            run.add("stream us=hdr ai=%d ops=%s" % (ai, stream_ops(more, chunkings(rng, len(more), 3)[-1])),
+                    oracle=lambda res, meta, peak, out=m["out"]: None if stream_verdict(res) == "err" and is_prefix_repr(outfield(res), out)
+                    else "out-of-window copy accepted by the streaming decoder (pieces / allow_incomplete) or bytes fabricated", tag="c09:stream-api-pieces")
         else:
             def raw_err(res, meta, peak, out=m["out"]):
                 toks = res.split(" ")
@@ -614,6 +659,13 @@ def c10(run: Run):
                 run.add("rawlzma lc=%d lp=%d pb=%d dict=%d us=%s ml=%d ops=d:%s" % (m["lc"], m["lp"], m["pb"], d, us, ml, m["payload"].hex()),
                         oracle=roracle, tag="c10:raw")
                 if rng.chance(1, 3):
+                    # constructed for a tiny expected size, which reset replaces by the real one
+                    def roracle3(res, meta, peak, f=roracle):
+                        toks = res.split(" ")
+                        return f(" ".join(toks[:1] + toks[2:]), meta, peak)
+                    run.add("rawlzma lc=%d lp=%d pb=%d dict=%d us=%d ml=%d ops=rs:%s;d:%s" % (
+                        m["lc"], m["lp"], m["pb"], d, rng.pick([0, 1, 2]), ml, us, m["payload"].hex()), oracle=roracle3, tag="c10:raw-resized-up")
+                if rng.chance(1, 3):
                     # constructed for a huge expected size, which reset replaces: the limit is measured against the
                     # window actually needed
                     def roracle2(res, meta, peak, f=roracle):
@@ -621,6 +673,22 @@ def c10(run: Run):
                         return f(" ".join(toks[:1] + toks[2:]), meta, peak)
                     run.add("rawlzma lc=%d lp=%d pb=%d dict=%d us=%d ml=%d ops=rs:%s;d:%s" % (
                         m["lc"], m["lp"], m["pb"], d, rng.pick([2**40, 2**63, 5000]), ml, us, m["payload"].hex()), oracle=roracle2, tag="c10:raw-resized")
+    # an announced size / dictionary costs nothing until data arrives, with or without a limit
+    for i in range(sizes(run.tier, 6, 30)):
+        m = rng.pick([x for x in mats if x["dict"] >= 4096 and len(x["payload"]) < 3000])
+        for ml in (4, 1000, 2**40):
+            big = lzma_header(m["lc"], m["lp"], m["pb"], rng.pick([2**30, 2**31, 2**32 - 1]), rng.pick([2**30 + 5, 2**40, 2**62])) + m["payload"]
+
+            def noalloc(res, meta, peak, ml=ml):
+                if v(res) not in ("ok", "err"):
+                    return "verdict " + v(res)
+                if peak > 16 * 1024 * 1024:
+                    return "heap peak %d bytes for a %d-byte input under memory limit %d: the announced size was allocated up front" % (peak, meta["inlen"], ml)
+                return None
+            run.add("lzma us=hdr ml=%d in=%s" % (ml, big.hex()), oracle=noalloc, tag="c10:announced-size-not-allocated", inlen=len(big))
+            run.add("stream us=hdr ml=%d ops=%s" % (ml, stream_ops(big, [20, len(big) - 20])),
+                    oracle=lambda res, meta, peak: None if peak <= 16 * 1024 * 1024 else "stream: heap peak %d bytes: the announced size was allocated up front" % peak,
+                    tag="c10:announced-size-not-allocated", inlen=len(big))
     # operation level: the buffer never holds more than m bytes
     for i in range(sizes(run.tier, 300, 4000)):
         d = rng.pick([1, 2, 3, 4, 6])
@@ -829,6 +897,26 @@ def c12(run: Run):
         pass
     for m in lz2:
         decoder_cases("lzma2", "", m["payload"], m["out"], True, len(parse_lzma2(m["payload"])) + 2)
+    # the streaming decoder under sink faults (outputs that lap the window: the sink is written at every lap and
+    # at finish); the fault is one-shot or permanent, possibly after part of the write was accepted
+    wr = [m for m in core.gen_material("lzmawrap", run.seed + 12, sizes(run.tier, 3, 10)) if len(m["out"]) > m["dict"]]
+    for m in wr:
+        data = lzma_file(m)
+        nlaps = len(m["out"]) // m["dict"] + 2
+        for k in range(nlaps + 1):
+            for tail in ("f", "f,a,a,a,a,a,a,a,a,a,a,a,a", "u1000,f,a,a,a,a,a,a,a,a,a,a,a"):
+                script = ",".join(["a"] * k + [tail])
+                parts = split_by(data, chunkings(rng, len(data), 3)[-1])
+
+                def soracle(res, meta, peak, out=m["out"]):
+                    sv = stream_verdict(res)
+                    if sv not in ("ok", "err"):
+                        return "streaming decoder under a sink fault: " + sv
+                    if sv == "ok":
+                        return None if outfield(res) == out.hex() else "success reported but the sink did not receive the complete output"
+                    return None if out.hex().startswith(outfield(res)) else "bytes the sink accepted are not a prefix of the correct output"
+                run.add("stream us=hdr full=1 ai=%d sink=%s ops=%s" % (rng.below(2), script, ";".join(["wa:" + c.hex() for c in parts] + ["fin"])),
+                        oracle=soracle, tag="c12:stream:sinkfault", script=script)
     # nothing to deliver is still a success that flushes: the empty LZMA2 stream, empty .lzma streams
     decoder_cases("lzma2", "", b"\x00", b"", True, 2)
     for e in core.script([dict(kind="lzma", lc=3, lp=0, pb=2, dict=4096, prog="E"), dict(kind="lzma", lc=0, lp=2, pb=1, dict=4096, prog="")]):
@@ -889,9 +977,14 @@ def c12_post(run):
         second.add("enc kind=%s opt=%s full=1 sink=%s in=%s" % (kind, opt or "hnone", script, data.hex()), oracle=oracle,
                    tag="c12:enc:shortwrite", script=script)
         for p in range(len(data) + 1):
+            # for the .lzma encoder (one byte at a time, no framing that depends on the read pattern) the bytes
+            # delivered before the fault must be a prefix of the encoding of the complete input
             second.add("enc kind=%s opt=%s full=1 rbad=1 in=%s" % (kind, opt or "hnone", data[:p].hex()),
-                       oracle=lambda res, meta, peak, full=full: "source fault swallowed by the encoder" if v(res) == "ok" else
-                       ("verdict " + v(res)) if v(res) != "err" else None, tag="c12:enc:srcfault", script="")
+                       oracle=lambda res, meta, peak, full=full, kind=kind: "source fault swallowed by the encoder" if v(res) == "ok" else
+                       ("verdict " + v(res)) if v(res) != "err" else
+                       "encoder: after a source fault the sink holds bytes that are not a prefix of the correct output"
+                       if (kind == "lzma" and not full.hex().startswith(outfield(res))) else None,
+                       tag="c12:enc:srcfault", script="")
         # one-shot source faults (the k-th read call fails once)
         for frags in ("", "3", "1,1,1,1,1,1,1,1,1,1,1,1,1,1,1,1,1,1,1,1,1,1,1,1"):
             # the fault-free output under the same read pattern (the LZMA2 encoder emits one chunk per read)
@@ -926,7 +1019,7 @@ def c13(run: Run):
         which = rng.below(3)
         if which == 0:
             m = rng.pick(lzm)
-            data, op = lzma_file(m), "lzma us=hdr"
+            data, op = lzma_file(m), rng.pick(["lzma us=hdr", "lzma us=hdr", "lzma us=hdr ai=1", "lzma us=hup:none ai=1"])
         elif which == 1:
             data, op = rng.pick(lz2)["payload"], "lzma2"
         else:
@@ -938,7 +1031,7 @@ def c13(run: Run):
         elif mode == 2:
             data = data[:rng.below(len(data) + 1)]
         elif mode == 3:
-            data = data + rng.bytes(rng.below(9))
+            data = data + rng.pick([rng.bytes(rng.below(9)), bytes(rng.pick([4, 8, 12])) + rng.pick(xzs)["data"], rng.pick(xzs)["data"], bytes(rng.pick([1, 4, 7]))])
         ks = []
         picks = ["flat"] + [rng.pick(rks[1:]) for _ in range(sizes(run.tier, 4, 8))]
         for rk in picks:
@@ -1010,6 +1103,9 @@ def c14(run: Run):
                 pool.append(pay[:5])
         # streams with one out-of-window copy (a stale window / stale rep registers would accept them)
         pool += [b["payload"] for b in allbad if (b["lc"], b["lp"], b["pb"]) == (lc, lp, pb) and b["dict"] == d][:4]
+        # a copy reaching before the start of its own output (a window recycled from the previous stream would serve it)
+        pool += [b["payload"] for b in core.script([dict(kind="lzma", lc=lc, lp=lp, pb=pb, dict=d, prog=pr)
+                                                     for pr in ("M%d.5" % rng.pick([1, 2, 3]), "L65,L66,M%d.9" % rng.pick([3, 4, 7]), "L1,S")])]
         # the empty stream with end marker (adapts models, leaves rep0 = 0xFFFFFFFF, produces nothing)
         pool.append(bytes.fromhex("0083fffbffffc0000000"))
         # payloads followed by bytes that do not belong to them
@@ -1041,6 +1137,20 @@ def c14(run: Run):
                             oracle=None, tag="c14:lzma:fresh", nontrivial=False)
             groups.append((hist, idx, fresh, 2))
             groups.append((hist, idx - 1, fresh, 1))
+    # memory limit x size re-specified by reset: the limit is measured against the window a decode needs, whatever
+    # sizes the object was constructed or reset with
+    for m in [x for x in allm if len(x["out"]) > 40 and x["dict"] >= 64][:sizes(run.tier, 12, 80)]:
+        L = len(m["out"])
+        ml = rng.pick([7, 16, 30, min(L, m["dict"]) - 1])
+        us_final = "none" if m["eos"] else str(L)
+        for us0, rs in (("none", str(L)), (str(2**40), str(L)), ("3", str(L)), (str(L), "none" if m["eos"] else str(L))):
+            ops = ["rs:%s" % rs] + (["rs:%s" % us_final] if rs != us_final else []) + ["st", "d:" + m["payload"].hex()]
+            hist = run.add("rawlzma lc=%d lp=%d pb=%d dict=%d us=%s ml=%d ops=%s" % (m["lc"], m["lp"], m["pb"], m["dict"], us0, ml, ";".join(ops)),
+                           oracle=lambda res, meta, peak: "panic in history" if "panic" in res else None, tag="c14:lzma:memlimit-resized")
+            fresh = run.add("rawlzma lc=%d lp=%d pb=%d dict=%d us=%s ml=%d ops=st;d:%s" % (m["lc"], m["lp"], m["pb"], m["dict"], us_final, ml, m["payload"].hex()),
+                            oracle=None, tag="c14:lzma:fresh", nontrivial=False)
+            groups.append((hist, len(ops) - 1, fresh, 2))
+            groups.append((hist, len(ops) - 2, fresh, 1))
     # "any number of reuse cycles": hundreds of resets between two uses of the same literal contexts (counters
     # that wrap, lazily refreshed tables); A touches many contexts, B only a few
     cyc = []
@@ -1190,6 +1300,24 @@ def c17(run: Run):
                 bytes([core.props_byte(m["lc"], m["lp"], m["pb"])]) + m["payload"]
             data = chunk + b"\x02\x00\x00\x41\x00"
             run.add("lzma2 in=%s" % data.hex(), oracle=exp_err(), tag="c17:marker-before-declared-size", mut="unpacked+%d, ends with marker" % extra)
+    # the declared uncompressed size ends on a symbol boundary and what follows is so predictable that decoding
+    # it would fetch no further input byte: only the coder's end condition (code = 0) can tell
+    reqs = []
+    for i in range(sizes(run.tier, 6, 30)):
+        per = rng.pick([7, 8, 9])
+        reqs.append(dict(kind="lzma2", chunks="%sC3:3.0.2:X%d.%d.200,M%d.%d*%d" % (rng.pick(["", "V1:20.%d|" % rng.below(99)]), per, rng.below(999), per, per, rng.pick([20, 30, 60]))))
+    for b, rq in zip(core.script(reqs), reqs):
+        pay = b["payload"]
+        per = int(rq["chunks"].split("M")[1].split(".")[0])
+        c = [c for c in parse_lzma2(pay) if c["kind"] == "lzma"][-1]
+        for drop in (per, 2 * per):
+            nu = c["unpacked"] - drop
+            o = c["off"]
+            mut = pay[:o] + bytes([(pay[o] & 0xE0) | ((nu - 1) >> 16)]) + ((nu - 1) & 0xFFFF).to_bytes(2, "big") + pay[o + 3:]
+            ref = liblzma_raw2(mut)
+            run.count("liblzma-on-cheap-tail:" + ref[0])
+            run.add("lzma2 in=%s" % mut.hex(), oracle=exp_err(), tag="c17:unpacked-cheap-tail", mut="unpacked-%d (whole final copies dropped)" % drop)
+        run.add("lzma2 in=%s" % pay.hex(), oracle=exp_ok_out(b["out"]), tag="c17:valid-cheap-tail")
     # the reserved control byte 0x7F in front of what would be a valid 2 MiB chunk under 0xFF
     for b in core.gen_material("lzma2big", 1, 2):
         if b.get("what") == "unpacked2MiB":
@@ -1232,6 +1360,14 @@ def c18(run: Run):
             if fid == 0x03:
                 bl[k].props = b"\x00"
             run.add("xz in=%s" % core.build_xz(f["check"], bl).hex(), oracle=refused, tag="c18:filter-id", feature="filter 0x%x" % fid)
+        # every one-byte filter id on one block of a few files (the assigned ids 0x03..0x0B and the gaps)
+        if blocks and rng.chance(1, 6):
+            for fid in range(0x80):
+                if fid == 0x21:
+                    continue
+                bl = [core.XzBlock(b.payload, b.out, b.decl_packed, b.decl_unpacked, b.extra_pad_words, dict(b.widths), b.filter_id, b.flags_extra, b.props) for b in blocks]
+                bl[0].filter_id = fid
+                run.add("xz in=%s" % core.build_xz(f["check"], bl).hex(), oracle=refused, tag="c18:filter-id-sweep", feature="filter 0x%x" % fid)
         # reserved block flag bits
         for bit in (0x04, 0x08, 0x10, 0x20):
             if not blocks:
